@@ -516,3 +516,22 @@ theorem evalAction_core (env : Env) (n : Nat) (w : World) {st st' : EState} (h :
   rw [EState.core_eq_withStatus h, evalAction_status]
 
 end Liquer
+
+namespace Liquer
+
+theorem refCall_mono_le (env : Env) {m m' : Nat} (hle : m ≤ m') (st act raw sig x)
+    (h : (refCall env m st act raw sig x).1 ≠ .unmodelled) :
+    refCall env m' st act raw sig x = refCall env m st act raw sig x := by
+  induction hle with
+  | refl => rfl
+  | step _ ih => rw [refCall_mono (ref_mono env _) _ _ _ _ _ (by rw [ih]; exact h), ih]
+
+theorem refPre_mono_le (env : Env) {m m' : Nat} (hle : m ≤ m') (q input)
+    (h : (refPre env m q input).1 ≠ .unmodelled) :
+    refPre env m' q input = refPre env m q input := by
+  unfold refPre at h ⊢
+  split
+  · rfl
+  · next p hp => simp only [hp] at h; exact refQ_mono_le env hle _ _ _ _ h
+
+end Liquer
